@@ -23,7 +23,7 @@ class C10(common.SpecCheck):
                    "compiler's own graph"]
 
     def gen(self, rng, k):
-        spec, meta = classes.gen_mixed(rng, [("S", 3), ("O", 5), ("A", 2), ("A+", 2), ("K", 2), ("T", 2), ("M", 4)])
+        spec, meta = classes.gen_mixed(rng, [("S", 3), ("O", 5), ("A", 2), ("A+", 2), ("K", 2), ("T", 2), ("M", 3), ("Mp", 2)])
         return spec, meta
 
     def inputs(self, rng, spec, meta):
@@ -45,7 +45,7 @@ class C10(common.SpecCheck):
         return False
 
     def judge(self, spec, meta, inputs, results):
-        vs = common.rejection_violations(results, must_accept=meta.get("class") not in ("M", "A+"), allowed=REJ)
+        vs = common.rejection_violations(results, must_accept=meta.get("class") not in ("M", "Mp", "A+"), allowed=REJ)
         for h, r in sorted(results.items()):
             if r["status"] != "ok" or vs:
                 continue
